@@ -215,7 +215,9 @@ var vfC02Modes = []string{
 var (
 	vfC02Methods = []string{"GET", "POST", "PUT", "HEAD", "OPTIONS", "DELETE"}
 	vfC02Hosts   = []string{"hysteria", "example.com", "hysteria.example", "xhysteria"}
-	vfC02Paths   = []string{"/auth", "/auth/", "/authx", "/Auth", "/", "/a/b?q=1"}
+	// the last three are not in canonical form (and do not normalise to /auth): a server must hand them to the
+	// masquerade handler as they are, not "clean" or redirect them itself
+	vfC02Paths = []string{"/auth", "/auth/", "/authx", "/Auth", "/", "/a/b?q=1", "//x", "/a/../b", "/./x"}
 	// header sets; auth_good (credentials the authenticator WOULD accept) is only put on near-misses
 	vfC02HeaderSets = []string{"none", "auth_bad", "auth_full_bad", "rx_garbage", "padding", "auth_good"}
 )
@@ -308,7 +310,7 @@ func vfC02GenReq(r vfC02Rand, id string) *vfC02Req {
 		case 1:
 			q.Host = vfC02Hosts[1+r.Intn(3)]
 		default:
-			q.Path = vfC02Paths[1+r.Intn(5)]
+			q.Path = vfC02Paths[1+r.Intn(len(vfC02Paths)-1)]
 		}
 		q.HS = vfC02HeaderSets[r.Intn(6)]
 	case x < 60:
@@ -316,7 +318,7 @@ func vfC02GenReq(r vfC02Rand, id string) *vfC02Req {
 	default:
 		q.Method = vfC02Methods[r.Intn(6)]
 		q.Host = vfC02Hosts[r.Intn(4)]
-		q.Path = vfC02Paths[r.Intn(6)]
+		q.Path = vfC02Paths[r.Intn(len(vfC02Paths))]
 		q.HS = vfC02HeaderSets[r.Intn(6)]
 		if q.exact() && q.HS == "auth_good" {
 			q.HS = "auth_full_bad"
